@@ -7,6 +7,7 @@ obligations instantiate `T` with the regenerated `genTables`), every list of mes
 of any length and any field values.  Helper lemmas are in LA/Proofs/Coalesce*.lean.
 -/
 import LA.Proofs.CoalesceMain
+import LA.Proofs.StateFacts
 
 namespace LA.Coalesce
 
@@ -484,3 +485,9 @@ theorem C09_conservation_items_counterexample : ¬ C09_conservation_without_item
   · revert ht; decide +kernel
 
 end LA.Coalesce
+
+/-! ### the code keeps nothing between calls that the model does not have -/
+
+/-- Package aucoalesce keeps nothing between calls except the two id caches used by `ResolveIDs`, and package auparse
+nothing at all (regenerated list, see LA.Proofs.StateFacts): `CoalesceMessages` is a function of its argument. -/
+theorem C09_coalescer_keeps_nothing_between_calls : LA.StateFacts.ofPkg "aucoalesce" = LA.StateFacts.coalesceIdCaches ∧ LA.StateFacts.ofPkg "auparse" = [] := by decide
